@@ -780,6 +780,9 @@ def _pure_ref(e: ast.AST) -> bool:
     return attr_chain(e) is not None or isinstance(e, ast.Constant)
 
 
+EXTERNAL_PARAMS: T.Dict[str, T.List[str]] = {}     # function name -> declared positional parameters (filled by the pack from the defining module)
+
+
 class _Canon(ast.NodeTransformer):
     """One spelling for: arguments of calls of methods of the same class (bound by signature), text templates
     (`a + 'lit'`, `'%s..' % a`, `'{}..'.format(a)`, f-strings), `len(x)` compared with 0/1, membership in a short display,
@@ -811,6 +814,14 @@ class _Canon(ast.NodeTransformer):
                 rest = [k for k in c.keywords if k.arg in kws]
                 rest.sort(key=lambda k: params.index(k.arg) if k.arg in params else 999)
                 c = ast.copy_location(ast.Call(func=c.func, args=args, keywords=rest), c)
+        # functions of other modules whose parameter list the pack has read from their definition: keywords -> positional as well
+        ext = EXTERNAL_PARAMS.get((attr_chain(c.func) or '').split('.')[-1]) if not m else None
+        if ext and c.keywords and not any(k.arg is None for k in c.keywords) and not any(isinstance(a, ast.Starred) for a in c.args):
+            kws = {k.arg: k.value for k in c.keywords}
+            args = list(c.args)
+            while len(args) < len(ext) and ext[len(args)] in kws:
+                args.append(kws.pop(ext[len(args)]))
+            c = ast.copy_location(ast.Call(func=c.func, args=args, keywords=[k for k in c.keywords if k.arg in kws]), c)
         # set(A).isdisjoint(B) == not any(x in B for x in A)
         if isinstance(c.func, ast.Attribute) and c.func.attr in ('isdisjoint', 'intersection') and len(c.args) == 1 and not c.keywords \
                 and isinstance(c.func.value, ast.Call) and attr_chain(c.func.value.func) in ('set', 'frozenset') and len(c.func.value.args) == 1:
@@ -834,6 +845,19 @@ class _Canon(ast.NodeTransformer):
                         parts.append(c.args[i])
                 return ast.copy_location(_template(parts), c)
         return c
+
+    def visit_IfExp(self, e: ast.IfExp) -> ast.AST:
+        """`X[K] if K in X else D` / `D if K not in X else X[K]` -> `X.get(K)` (D is None) / `X.get(K, D)`"""
+        self.generic_visit(e)
+        t = e.test
+        if isinstance(t, ast.Compare) and len(t.ops) == 1 and isinstance(t.ops[0], (ast.In, ast.NotIn)):
+            hit, miss = (e.body, e.orelse) if isinstance(t.ops[0], ast.In) else (e.orelse, e.body)
+            tab, key = t.comparators[0], t.left
+            if isinstance(hit, ast.Subscript) and norm(hit.value) == norm(tab) and norm(hit.slice) == norm(key) \
+                    and not any(isinstance(x, (ast.Call, ast.NamedExpr, ast.Await)) for x in ast.walk(tab)):
+                args = [key] if isinstance(miss, ast.Constant) and miss.value is None else [key, miss]
+                return ast.copy_location(ast.Call(func=ast.Attribute(value=tab, attr='get', ctx=ast.Load()), args=args, keywords=[]), e)
+        return e
 
     def visit_BinOp(self, e: ast.BinOp) -> ast.AST:
         self.generic_visit(e)
@@ -1066,6 +1090,13 @@ def _statement_forms(fn: ast.FunctionDef) -> None:
                 out.append(ast.copy_location(ast.If(test=st.value, body=[const(st, st.targets[0], True)], orelse=[const(st, st.targets[0], False)]), st))
             elif isinstance(st, ast.AugAssign) and isinstance(st.op, ast.BitOr) and (attr_chain(st.target) or '').startswith('self.'):
                 out.append(ast.copy_location(ast.If(test=st.value, body=[const(st, st.target, True)], orelse=[]), st))
+            elif isinstance(st, ast.Expr) and isinstance(st.value, ast.Call) and isinstance(st.value.func, ast.Attribute) \
+                    and st.value.func.attr == 'setdefault' and len(st.value.args) == 2 and not st.value.keywords:
+                # `X.setdefault(K, V)` with the result discarded == `if K not in X: X[K] = V` (insert-if-absent, either spelling)
+                tab, (key, val) = st.value.func.value, st.value.args
+                put = ast.copy_location(ast.Assign(targets=[ast.Subscript(value=copy.deepcopy(tab), slice=copy.deepcopy(key), ctx=ast.Store())],
+                                                   value=val, lineno=st.lineno), st)
+                out.append(ast.copy_location(ast.If(test=ast.Compare(left=key, ops=[ast.NotIn()], comparators=[tab]), body=[put], orelse=[]), st))
             else:
                 out.append(st)
         return out
@@ -1250,9 +1281,39 @@ def _records_as_tuples(fn: ast.FunctionDef, methods: T.Dict[str, T.Any], records
         loop.body = [Field().visit(b) for b in loop.body]
 
 
+def _desugar_suppress(fn: ast.FunctionDef) -> None:
+    """`with contextlib.suppress(E1, ..): BODY` -> `try: BODY` / `except (E1, ..): pass` (the definition of suppress), so that a failure
+    swallowed by either spelling is read by the same handler analysis; other items of the same `with` keep their nesting order"""
+    def f(stmts: T.List[ast.stmt]) -> T.List[ast.stmt]:
+        out: T.List[ast.stmt] = []
+        for st in stmts:
+            idx = [i for i, it in enumerate(st.items) if isinstance(it.context_expr, ast.Call) and it.optional_vars is None
+                   and (attr_chain(it.context_expr.func) or '').split('.')[-1] == 'suppress' and not it.context_expr.keywords
+                   and not any(isinstance(a, ast.Starred) for a in it.context_expr.args)] if isinstance(st, ast.With) else []
+            if not idx:
+                out.append(st)
+                continue
+            assert isinstance(st, ast.With)
+            i = idx[0]
+            excs = st.items[i].context_expr.args  # type: ignore[attr-defined]
+            inner: T.List[ast.stmt] = st.body
+            if st.items[i + 1:]:
+                inner = f([ast.copy_location(ast.With(items=st.items[i + 1:], body=st.body), st)])
+            if excs:
+                typ = excs[0] if len(excs) == 1 else ast.Tuple(elts=list(excs), ctx=ast.Load())
+                inner = [ast.copy_location(ast.Try(body=inner, handlers=[ast.copy_location(ast.ExceptHandler(type=typ, name=None, body=[ast.copy_location(ast.Pass(), st)]), st)],
+                                                   orelse=[], finalbody=[]), st)]
+            if st.items[:i]:
+                inner = [ast.copy_location(ast.With(items=st.items[:i], body=inner), st)]
+            out.extend(inner)
+        return out
+    _map_blocks(fn, f)
+
+
 def canonicalise(fn: ast.FunctionDef, methods: T.Dict[str, T.Any], cls: str, consts: T.Optional[T.Dict[str, ast.AST]] = None,
                  records: T.Optional[T.Dict[str, T.List[str]]] = None) -> ast.FunctionDef:
     """in place on a private copy of a function: the spelling normalisations above"""
+    _desugar_suppress(fn)
     _fold_constants(fn, consts or {})
     _records_as_tuples(fn, methods, records or {})
     _index_loops(fn)
